@@ -6,6 +6,7 @@ import (
 	"github.com/orda-io/orda/client/pkg/iface"
 	"github.com/orda-io/orda/client/pkg/model"
 	"github.com/orda-io/orda/client/pkg/operations"
+	"github.com/orda-io/orda/client/pkg/verifhook"
 	"sync"
 )
 
@@ -113,8 +114,10 @@ func (its *TransactionDatatype) BeginTransaction(
 	newTxnOp bool,
 ) *TransactionContext {
 	if its.isLocked && its.txCtx == txCtx {
+		verifhook.Yield("tx.begin.reentrant")
 		return nil // called after DoTransaction() succeeds.
 	}
+	verifhook.Yield("tx.begin.beforeLock")
 	its.txCtx = its.setTransactionContextAndLock(tag)
 	if newTxnOp {
 		op := operations.NewTransactionOperation(tag)
@@ -188,6 +191,7 @@ func (its *TransactionDatatype) unlock() {
 		its.txCtx = nil
 		its.success = true
 		its.mutex.Unlock()
+		verifhook.Yield("tx.unlock.afterMutexUnlock")
 		its.isLocked = false
 	}
 }
